@@ -1508,6 +1508,11 @@ where
                 );
 
                 while let Some(chosen) = self.choice_buf.pop() {
+                    // The tally is a u16: a (very) large packet could fit
+                    // more members than it can announce
+                    if num_items == u16::MAX {
+                        break;
+                    }
                     let pos = buf.get_ref().len();
                     if let Err(_ignored) = self.codec.encode_member(&chosen, &mut buf) {
                         // encoding the member might have advanced the cursor
